@@ -294,9 +294,15 @@ class SessionRun(ClientRun):
 
         self.inject("NotifyStop" if how == "stop" else "NotifyRemove", {"i": oid}, fn)
 
-    def ev_sub(self, sid: int, fam: str):
+    def ev_sub(self, sid: int, fam: str, once: bool = False):
+        """once: the callback unsubscribes itself on its first invocation (only families that hand out an unsubscribe function)"""
         c = self.client
         run = self
+        once = bool(once) and fam in ("adv", "rawadv", "free")
+
+        def maybe_unsub(sid=sid):
+            if once and sid in run.sub_unsubs and run.sub_unsubs[sid] is not None:
+                run.sub_unsubs.pop(sid)()
 
         def fn():
             if sid in self.sub_unsubs:
@@ -322,17 +328,17 @@ class SessionRun(ClientRun):
                     lambda e, attr, sid=sid: run.cb.append([sid, "hastate", int(e[1:]), [], run.msg_seq]),
                     lambda e, attr, sid=sid: run.cb.append([sid, "hastate_once", int(e[1:]), [], run.msg_seq]))
             elif fam == "adv":
-                u = c.subscribe_bluetooth_le_advertisements(lambda adv, sid=sid: run.cb.append([sid, "adv", adv.address, [], run.msg_seq]))
+                u = c.subscribe_bluetooth_le_advertisements(lambda adv, sid=sid: (run.cb.append([sid, "adv", adv.address, [], run.msg_seq]), maybe_unsub()))
             elif fam == "rawadv":
-                u = c.subscribe_bluetooth_le_raw_advertisements(lambda m, sid=sid: run.cb.append([sid, "rawadv", m.advertisements[0].address, [], run.msg_seq]))
+                u = c.subscribe_bluetooth_le_raw_advertisements(lambda m, sid=sid: (run.cb.append([sid, "rawadv", m.advertisements[0].address, [], run.msg_seq]), maybe_unsub()))
             elif fam == "free":
-                u = c.subscribe_bluetooth_connections_free(lambda free, limit, sid=sid: run.cb.append([sid, "free", free, [], run.msg_seq]))
+                u = c.subscribe_bluetooth_connections_free(lambda free, limit, sid=sid: (run.cb.append([sid, "free", free, [], run.msg_seq]), maybe_unsub()))
             else:
                 raise ValueError(fam)
             self.sub_unsubs[sid] = u
             self.sub_fams[sid] = fam
 
-        self.inject("UserSub", {"id": sid, "fam": fam}, fn)
+        self.inject("UserSub", {"id": sid, "fam": fam, "once": once}, fn)
 
     def ev_unsub(self, sid: int, fam: str = ""):
         args = {"id": sid, "fam": fam}
@@ -565,7 +571,7 @@ def c17_random(rng: random.Random, n_events: int) -> list:
     for _ in range(n_events):
         r = rng.random()
         if r < 0.2:
-            sch.append(("ev", "sub", rng.choice((1, 2, 3)), rng.choice(SUB_FAMS + ["states"])))
+            sch.append(("ev", "sub", rng.choice((1, 2, 3)), rng.choice(SUB_FAMS + ["states"]), rng.random() < 0.3))
         elif r < 0.27:
             sid = rng.choice((1, 2, 3))
             sch.append(("ev", "unsub", sid, "x"))
@@ -614,6 +620,11 @@ def c17_systematic(rng: random.Random, quick: bool) -> list:
             msgs = [{"k": mk, "d": 20 + j, "f": j % 2 == 0} for j in range(4)]
             sch = [("ev", "sub", 1, fam), ("idle",), ("ev", "msgs", msgs[:cut]), ("iter", 1), ("ev", "unsub", 1, fam), ("ev", "msgs", msgs[cut:]), ("idle",)]
             out.append(sch)
+    # a subscriber that unsubscribes itself from inside its callback, next to one that stays
+    for fam, mk in (("adv", "adv"), ("rawadv", "rawadv"), ("free", "free")):
+        for first_once in (True, False):
+            msgs = [{"k": mk, "d": 30 + j} for j in range(3)]
+            out.append([("ev", "sub", 1, fam, first_once), ("ev", "sub", 2, fam, not first_once), ("idle",), ("ev", "msgs", msgs), ("idle",), ("ev", "msgs", msgs[:1]), ("idle",)])
     # voice assistant: handler outcomes x audio x unsubscribe at every point
     for mode in ("port", "noport", "block"):
         for audio in (False, True):
